@@ -36,7 +36,8 @@ REQUIRE = {
         "direct API cal_angle_from_momentum+amp invariant": 10,
     },
     "min_nontrivial": {"quick": 40, "thorough": 400},
-    "cover": {"nbody": [3, 4], "half_integer_spin": ["True"], "identical": ["True"], "align_ref": ["default", "center_mass"]},
+    "cover": {"nbody": [3, 4], "half_integer_spin": ["True"], "identical": ["True"], "align_ref": ["default", "center_mass"],
+              "identical_kind": ["one pair", "two families", "three identical particles"]},
 }
 LEVEL_TEXT = ("Metamorphic runtime monitor at the two observation points the property names (ConfigLoader.data.cal_angle -> "
               "get_amplitude()(data); cal_angle_from_momentum + AmplitudeModel.__call__) plus an icontract postcondition on every "
@@ -48,7 +49,7 @@ MODELS = ("default", "default", "BW", "BWR2", "BWR_normal", "one", "BWR_below")
 
 
 def make_card(i, rng, tag):
-    cls = i % 6
+    cls = i % 8
     if cls == 0:
         g = cards.CardGen(rng, tag, nbody=3, res_per_slot=(1, 2), models=MODELS)
     elif cls == 1:
@@ -71,10 +72,38 @@ def make_card(i, rng, tag):
         g = cards.CardGen(rng, tag, nbody=3, massless_prob=0.6, final_j2=(0, 1, 2, 2), res_j2_int=(0, 2, 4, 6), res_j2_half=(1, 3, 5), models=MODELS)
     elif cls == 4:  # parity conserving 4-body
         g = cards.CardGen(rng, tag, nbody=4, p_break_prob=0.0, n_chains=(1, 2), final_j2=(0, 0, 1, 2), models=("default",))
-    else:  # all spin-1/2 and spin-1 finals
+    elif cls == 5:  # all spin-1/2 and spin-1 finals
         g = cards.CardGen(rng, tag, nbody=3, final_j2=(1, 1, 2), top_j2=(1, 3, 0, 2, 4), res_per_slot=(1, 2), models=MODELS)
+    elif cls == 6:
+        # two families of identical particles (pi+ pi+ pi- pi- like): identical_particles [[B, C], [D, E]]; exchanging the momenta
+        # of ONE family, of the other, or of both must leave the density unchanged.  Spinning finals only with align_ref=center_mass
+        # (the default alignment of symmetrised amplitudes is the recorded finding of class 2)
+        sub = int(rng.integers(2))
+        ja, jb = (0, 0) if sub == 0 else (int(rng.choice([0, 1, 2])), int(rng.choice([0, 1, 2])))
+        pa, pb = int(rng.choice([-1, 1])), int(rng.choice([-1, 1]))
+        ma, mb = float(rng.choice(cards.FINAL_MASSES[:4])), float(rng.choice(cards.FINAL_MASSES[:4]))
+        g = cards.CardGen(rng, tag, nbody=4, fixed_finals=[(ja, pa, ma), (ja, pa, ma), (jb, pb, mb), (jb, pb, mb)], n_chains=(1, 3), models=("default", "BW"))
+    else:
+        # three identical particles (B, C, D): transpositions and cyclic exchanges (spin 0, and spin 1/2 or 1 with align_ref=center_mass)
+        sub = int(rng.integers(2))
+        j2 = 0 if sub == 0 else int(rng.choice([1, 2]))
+        p_, m_ = int(rng.choice([-1, 1])), float(rng.choice(cards.FINAL_MASSES[:4]))
+        g = cards.CardGen(rng, tag, nbody=3, fixed_finals=[(j2, p_, m_)] * 3, n_chains=(1, 3), top_j2=(0, 1, 2, 3), models=("default", "BW"))
     card = g.make()
     card["meta"]["class"] = cls
+    if cls in (6, 7):
+        f = card["meta"]["finals"]
+        if cls == 6:
+            card["config"]["data"]["identical_particles"] = [[f[0]["name"], f[1]["name"]], [f[2]["name"], f[3]["name"]]]
+            card["meta"]["exchanges"] = [[1, 0, 2, 3], [0, 1, 3, 2], [1, 0, 3, 2]]
+        else:
+            card["config"]["data"]["identical_particles"] = [[f[0]["name"], f[1]["name"], f[2]["name"]]]
+            card["meta"]["exchanges"] = [[1, 0, 2], [0, 2, 1], [1, 2, 0], [2, 0, 1]]
+        card["meta"]["identical"] = True
+        card["meta"]["identical_sub"] = sub
+        card["meta"]["identical_kind"] = "two families" if cls == 6 else "three identical particles"
+        if sub == 1:
+            card["config"]["data"]["align_ref"] = "center_mass"
     if cls == 0 and (i // 6) % 3 == 1:
         # a direct three-body vertex A -> B C D interfering with the resonant chains
         top_ = card["meta"]["top"]["name"]
@@ -243,7 +272,11 @@ def run(ctx):
             ctx.covered("inversion_class", "3body" if meta["n"] == 3 else "4body_strong")
         # identical exchange
         if meta.get("identical"):
-            judge("f(exchange identical)==f(p)", [ps[1], ps[0]] + ps[2:], {"exchange": [0, 1]})
+            for perm in meta.get("exchanges", [[1, 0] + list(range(2, meta["n"]))]):
+                cyc = meta.get("identical_kind") == "three identical particles" and sum(1 for a_, b_ in enumerate(perm) if a_ != b_) == 3
+                judge("f(exchange identical)==f(p)", [ps[j_] for j_ in perm], {"momenta_taken_from": perm},
+                      mech="f(exchange identical)==f(p)" + (" [%s%s]" % (meta["identical_kind"], ", cyclic exchange" if cyc else "") if meta.get("identical_kind") else ""))
+            ctx.covered("identical_kind", meta.get("identical_kind", "one pair"))
         # second observation point: the direct API with its own defaults
         if i % 4 == 0 and not meta.get("identical"):
             try:
